@@ -731,9 +731,14 @@ func (w *World) envOptions() []envOpt {
 		do := func() {
 			w.stepPos = pos + 1
 			w.logf("STEP %s", st.Name)
+			defer func() {
+				if v := recover(); v != nil {
+					w.logf("STEP %s not applicable in this state (%v)", st.Name, v)
+				}
+			}()
 			st.Do(w)
 		}
-		if st.When == nil || st.When(w) {
+		if st.When == nil || safeWhen(st.When, w) {
 			addDef(envOpt{label: "step " + st.Name, cost: 1, do: do})
 		}
 	}
@@ -958,4 +963,15 @@ func (w *World) abstractKey() string {
 
 func init() {
 	vrand.Int63Fn = func() int64 { return 0 }
+}
+
+// safeWhen evaluates a step guard; a guard that cannot be evaluated in the
+// current state (e.g. it refers to a server that a deviation crashed) is false.
+func safeWhen(f func(*World) bool, w *World) (ok bool) {
+	defer func() {
+		if v := recover(); v != nil {
+			ok = false
+		}
+	}()
+	return f(w)
 }
